@@ -43,7 +43,7 @@ m = {
     }],
     "checks": checks,
     "not_applicable": na,
-    "notes": "All verdicts are computed from /repo's current working tree on every run (no cached results). Genuine defects found on the pinned tree were repaired by the 'fix:' commits in /repo (see known_findings.json 'fixed' records and DESIGN.md section 4): " + "; ".join(fix_commits),
+    "notes": "All verdicts are computed from /repo's current working tree on every run (no cached results). Rules that speak about 'every path of' a function analyse that function's inlined view (DESIGN.md 9.2: repository helpers, including closures handed to helpers, are inlined at SSA level by a static transformation; nothing is executed), so a step may be written out or factored into a helper. The checker itself is tested both ways on every thorough run: 80 independently written breaking changes (/verif/seeded) must be reported, behaviour-preserving refactorings (/verif/benign) must stay silent, and /verif/handmut makes every rule fire (DESIGN.md 9.5). Genuine defects found on the pinned tree were repaired by the 'fix:' commits in /repo (see known_findings.json 'fixed' records and DESIGN.md section 4): " + "; ".join(fix_commits),
 }
 json.dump(m, open(os.path.join(V, 'MANIFEST.json'), 'w'), indent=1)
 print("checks:", [c['property_id'] for c in checks], "n/a:", [n['property_id'] for n in na])
